@@ -148,6 +148,17 @@ func init() {
 			}
 			full := mon.SnapOf(rs)
 			ff := flags{rs.NoticesPresent, rs.WarningsPresent, rs.ErrorsPresent, rs.FatalsPresent}
+			if i%3 == 0 { // the entry points without a registry argument, and a nil registry, are the global registry
+				if fo := o.Reparse(); fo != nil {
+					if rd, pvd, _ := fo.LintDefault(); pvd == nil && rd != nil {
+						for _, d := range dropClock(day, mon.Diff(full, mon.SnapOf(rd), false, false)) {
+							name := strings.SplitN(d, ":", 2)[0]
+							c.V("default-entry-point-differs|"+name, "Lint<Kind>(obj) differs from Lint<Kind>Ex(obj, global registry): "+clipS(d, 240), name, inputs(o), nil)
+						}
+						c.R.Count("default_entry_point_runs", 1)
+					}
+				}
+			}
 			rng := c.Rng(i, 3)
 			// every lint alone (seeds, and every 8th mutant); otherwise a random 48 singletons
 			all := isSeed || i%8 == 0 || c.Thorough() && i%2 == 0
